@@ -19,6 +19,7 @@ import Gama.Lemmas.GeoBowring
 import Gama.Lemmas.GeoRoundTrip
 import Gama.Lemmas.GeoLatLong
 import Gama.Lemmas.GeoHeight
+import Gama.Lemmas.GeoGenTie
 namespace Gama.Props.C18
 open Gama Gama.Ellipsoid Gama.Angles Real
 
@@ -576,5 +577,44 @@ example : Grammar.floatRx.accepts "+1.5e-3".toList = true ∧ Grammar.floatRx.ac
 example : Literals.isInteger " -12 ".toList = true ∧ Literals.isInteger "1 2".toList = false
     ∧ Literals.isFloat "+1.5e-3".toList = true ∧ Literals.isFloat ".".toList = false
     ∧ Literals.isFloat "1e".toList = false ∧ Literals.isFloat " 5. ".toList = true := by decide
+
+/-! ## Source tie of the ellipsoid formulas (round 7)
+
+`Gen/EllipsoidExpr.lean` is rewritten from `ellipsoid.{h,cpp}` on every run (one definition per member function, one
+line per C++ statement).  The hand model the theorems above are about is EQUAL to it. -/
+
+/-- **every function of the ellipsoid model is the function the source defines now**, for every scalar type (`Float`
+    in the driver, `ℝ` in the theorems): the derived-parameter setters (`set_abff1` and its three entry points, hence
+    every table row), `W N M V F`, `blh2xyz`, and `xyz2blh` — `atan2`, the axis branch, the first Bowring pass, the
+    clamped second pass, both height formulas.  A changed sign / factor / operand / guard / order in the C++ changes
+    the right-hand sides and this proof fails. -/
+theorem C18_ellipsoid_source_tie {K : Type} [Scalar K] [Transc K] :
+    (∀ pa pb pf pf1 : K, setAbff1 pa pb pf pf1 = Gen.Ell.set_abff1 pa pb pf pf1) ∧
+    (∀ r : Gen.EllRow, (ofRow r : Ellipsoid K) = ofRowGen r) ∧
+    (∀ (e : Ellipsoid K) (b : K), e.W b = Gen.Ell.W e b ∧ e.N b = Gen.Ell.N e b ∧ e.M b = Gen.Ell.M e b ∧
+      e.V b = Gen.Ell.V e b ∧ e.F b = Gen.Ell.F e b) ∧
+    (∀ (e : Ellipsoid K) (b l h : K), e.blh2xyz b l h = Gen.Ell.blh2xyz e b l h) ∧
+    (∀ (e : Ellipsoid K) (x y z : K), e.xyz2blh x y z = Gen.Ell.xyz2blh e x y z) :=
+  ⟨setAbff1_eq_gen, ofRow_eq_gen, fun e b => ⟨W_eq_gen e b, N_eq_gen e b, M_eq_gen e b, V_eq_gen e b, F_eq_gen e b⟩,
+   blh2xyz_eq_gen, xyz2blh_eq_gen⟩
+
+/-- the whole off-surface triple (`C18_roundtrip_offsurface_table`) stated for the REGENERATED functions: every
+    row of the regenerated table through the regenerated setters, `Gen.Ell.xyz2blh (Gen.Ell.blh2xyz (φ, l, h))`. -/
+theorem C18_roundtrip_offsurface_source :
+    ∀ r ∈ Gen.ellipsoidTable, ∀ φ l h : ℝ, -10000 ≤ h → h ≤ 20000000 → 0 < Real.cos φ → l ∈ Set.Ioc (-π) π →
+      (let e : Ellipsoid ℝ := ofRowGen r
+       let p := Gen.Ell.blh2xyz e φ l h
+       let t := Gen.Ell.xyz2blh e p.1 p.2.1 p.2.2
+       ((Gen.Ell.N e φ + h) * |Real.sin (t.1 - φ)| < 1 / 100000 ∧ 0 < Real.cos (t.1 - φ)) ∧ t.2.1 = l ∧
+       (|t.2.2 - h| ≤ 2 * ((Gen.Ell.N e φ + h) * |Real.sin (t.1 - φ)|) ∧ |t.2.2 - h| < 2 / 100000)) := by
+  intro r hr φ l h h1 h2 hc hl
+  have := (C18_roundtrip_offsurface_table Gen.bowringClamp).1 r hr φ l h h1 h2 hc hl
+  simp only [← ofRow_eq_gen, ← blh2xyz_eq_gen, ← xyz2blh_eq_gen, ← N_eq_gen]
+  exact this
+
+-- non-vacuity: the regenerated setter is a well-formed ellipsoid on a concrete input (`set_ab 5 4`: B = 4, 0 < B ≤ A)
+example : WF (Gen.Ell.set_ab (5 : ℝ) 4) ∧ Gen.Ell.members.length = 10 := by
+  rw [← setAb_eq_gen]
+  exact ⟨setAb_wf (by norm_num) (by norm_num), rfl⟩
 
 end Gama.Props.C18
